@@ -2643,6 +2643,16 @@ impl KotoVm {
                         match value {
                             Tuple(new_entry) if new_entry.len() == 2 => {
                                 let key = ValueKey::try_from(new_entry[0].clone())?;
+                                // If the key is already in use by another entry then that entry
+                                // gets replaced, so it needs to be removed first.
+                                let (u_index, map_len) = match map_data.get_index_of(&key) {
+                                    Some(existing) if existing != u_index => {
+                                        map_data.shift_remove_index(existing);
+                                        let shifted = if existing < u_index { 1 } else { 0 };
+                                        (u_index - shifted, map_len - 1)
+                                    }
+                                    _ => (u_index, map_len),
+                                };
                                 // There's no API on IndexMap for replacing an entry,
                                 // so use swap_remove_index to remove the old entry,
                                 // then insert the new entry at the end of the map,
